@@ -27,6 +27,8 @@
 #include <sys/stat.h>
 #include <sys/utsname.h>
 #include <alloca.h>
+#include <linux/sched.h>
+#include <stdint.h>
 #include <sys/time.h>
 #include <sys/un.h>
 #include <sys/wait.h>
@@ -396,9 +398,15 @@ static size_t run_line(size_t pc, int in_child, int *stop) {
         opf("]}\n");
     } else if (!strcmp(c, "drain")) { opf("{\"ev\":\"drain\",\"label\":\"%s\",", ntok > 1 ? tok[1] : ""); drain_all("sinks"); opf("}\n"); oflush();
     } else if (!strcmp(c, "emit")) { opf("{\"ev\":\"mark\",\"label\":\"%s\"}\n", ntok > 1 ? tok[1] : ""); oflush();
-    } else if (!strcmp(c, "fork")) {
+    } else if (!strcmp(c, "fork") || !strcmp(c, "forkpid")) {      /* forkpid <n>: the child gets exactly pid n (clone3 set_tid; needs a private pid namespace) */
         oflush();
-        pid_t p = fork();
+        pid_t p;
+        if (!strcmp(c, "forkpid")) {
+            pid_t want[1] = { (pid_t) atol(tok[1]) }; struct clone_args ca; memset(&ca, 0, sizeof ca);
+            ca.exit_signal = SIGCHLD; ca.set_tid = (uint64_t) (uintptr_t) want; ca.set_tid_size = 1;
+            p = (pid_t) syscall(SYS_clone3, &ca, sizeof ca);
+            if (p < 0) { opf("{\"ev\":\"error\",\"what\":\"clone3 set_tid %ld: %s\"}\n", (long) want[0], strerror(errno)); p = fork(); }
+        } else p = fork();
         if (p == 0) { free(l); run_from(pc + 1, 1); oflush(); _exit(0); }
         int st = 0; waitpid(p, &st, 0);
         size_t q = pc + 1; int depth = 1;
